@@ -52,6 +52,34 @@ def groupFieldMeaning : List (String × String) :=
    ("group.history_total_gas_production", "GPTH"), ("group.history_total_gas_injection", "GITH"),
    ("group.gas_consumption_total", "GCT"), ("group.gas_import_total", "GIMT")]
 
+/-- What each IGRP / SGRP-fed member of `RstGroup` means: the quantity of the source object the writer must have taken
+it from (hand-written specification; catches an item swapped on one side only). -/
+def groupSourceMeaning : List (String × List String) :=
+  [("group.oil_rate_limit", ["cntl.oil_target"]), ("group.water_rate_limit", ["cntl.water_target"]),
+   ("group.gas_rate_limit", ["cntl.gas_target"]), ("group.liquid_rate_limit", ["cntl.liquid_target"]),
+   ("group.water_surface_limit", ["cntl.surface_max_rate"]), ("group.water_reservoir_limit", ["cntl.resv_max_rate"]),
+   ("group.water_reinject_limit", ["cntl.target_reinj_fraction"]), ("group.water_voidage_limit", ["cntl.target_void_fraction"]),
+   ("group.gas_surface_limit", ["cntl.surface_max_rate"]), ("group.gas_reservoir_limit", ["cntl.resv_max_rate"]),
+   ("group.gas_reinject_limit", ["cntl.target_reinj_fraction"]), ("group.gas_voidage_limit", ["cntl.target_void_fraction"]),
+   ("group.inj_water_guide_rate", ["cntl.guide_rate"]), ("group.inj_gas_guide_rate", ["cntl.guide_rate"]),
+   ("group.efficiency_factor", ["group.getGroupEfficiencyFactor()"]),
+   ("group.gas_consumption_rate", ["gc.consumption_rate"]), ("group.gas_import_rate", ["gc.import_rate"]),
+   ("group.prod_cmode", ["Opm::Group::ProductionCMode2Int(prod_cmode)"]),
+   ("group.parent_group", ["ngmaxz", "parent_group.insert_index()"]),
+   ("group.winj_cmode", ["gconinje_cmode"]), ("group.ginj_cmode", ["gconinje_cmode"]),
+   ("group.inj_water_guide_rate_def", ["guide_rate_def"]), ("group.inj_gas_guide_rate_def", ["guide_rate_def"]),
+   ("group.prod_guide_rate_def", ["GuideRateModeFromGuideRateProdTarget(prod_guide_rate_def)"])]
+
+/-- Which writer function serves which phase (the water and gas injection members share source texts). -/
+def groupPhaseOfFn (fn : String) : String :=
+  if fn = "assignGroupWaterInjectionTargets" then "water" else if fn = "assignGroupGasInjectionTargets" then "gas"
+  else if fn = "assignGroupOilInjectionTargets" then "oil" else "any"
+
+def groupPhaseOfField (field : String) : String :=
+  if (field.splitOn "water_").length > 1 ∧ (field.splitOn "_rate_limit").length = 1 then "water"
+  else if (field.splitOn "group.gas_").length > 1 ∧ (field.splitOn "_rate_limit").length = 1 ∧ field ≠ "group.gas_consumption_rate" ∧ field ≠ "group.gas_import_rate" then "gas"
+  else if field = "group.inj_gas_guide_rate" then "gas" else "any"
+
 /-- Two measures convert with the same factor in every unit system (reservoir volume and geometric volume differ in
 FIELD: rb vs ft³). -/
 def sameMeasure (a b : String) : Bool := a = b
